@@ -324,6 +324,39 @@ pub enum HostMode {
     AcceptingNested,
     /// BasicGarnishData: the host compacts the store inside the callback, then declines
     DecliningCompacting,
+    /// an earlier deferred operation offered on the same store was answered with Err by the host (the store's
+    /// `defer_op` entry point called directly, before the entry under test); afterwards the host declines / accepts
+    DecliningAfterFailure,
+    AcceptingAfterFailure,
+    /// the host re-enters the runtime inside the callback with an undefined operation of its own (`ops::add` on a
+    /// symbol and a number), which must be offered to it as well (it declines that one), then declines / accepts
+    DecliningReentering,
+    AcceptingReentering,
+}
+
+impl HostMode {
+    /// what the host finally answers to the operation under test
+    fn base(self) -> HostMode {
+        match self {
+            HostMode::DecliningAfterFailure | HostMode::DecliningReentering => HostMode::Declining,
+            HostMode::AcceptingAfterFailure | HostMode::AcceptingReentering => HostMode::Accepting,
+            m => m,
+        }
+    }
+    fn after_failure(self) -> bool {
+        matches!(self, HostMode::DecliningAfterFailure | HostMode::AcceptingAfterFailure)
+    }
+    fn reentering(self) -> bool {
+        matches!(self, HostMode::DecliningReentering | HostMode::AcceptingReentering)
+    }
+}
+
+/// the residue of an earlier failure: one offer made through the store's own `defer_op` entry point is answered
+/// with Err by the host (callback number 0 of the script). Returns false when the store swallowed the failure.
+fn failed_offer_prelude<D: SimData>(d: &mut D) -> bool {
+    let r = d.defer_op(Instruction::Add, (GarnishDataType::Unit, 0), (GarnishDataType::Unit, 0));
+    d.host_mut().log.clear();
+    r.is_err()
 }
 
 #[derive(Clone, Debug, Serialize, Deserialize)]
@@ -344,11 +377,16 @@ fn instr_by_name(name: &str) -> Option<Instruction> {
 fn script_for(mode: HostMode) -> HostScript {
     let mut s = HostScript::default();
     s.defer_default = Some(match mode {
-        HostMode::Absent | HostMode::Declining => Answer::Decline,
+        HostMode::Absent | HostMode::Declining | HostMode::DecliningAfterFailure => Answer::Decline,
         HostMode::DecliningCompacting => Answer::Compact(Box::new(Answer::Decline)),
-        HostMode::Accepting | HostMode::AcceptingNested => Answer::Unique,
+        HostMode::Accepting | HostMode::AcceptingNested | HostMode::AcceptingAfterFailure => Answer::Unique,
         HostMode::Failing => Answer::Fail,
+        HostMode::DecliningReentering => Answer::Reenter(Box::new(Answer::Decline)),
+        HostMode::AcceptingReentering => Answer::Reenter(Box::new(Answer::Unique)),
     });
+    if mode.after_failure() {
+        s.nth_override.insert(0, Answer::Fail);
+    }
     s.leaves_cursor_after_apply = mode == HostMode::AcceptingNested;
     s
 }
@@ -372,6 +410,20 @@ fn judge(instr: Instruction, lt: Option<GarnishDataType>, rt: GarnishDataType, m
     match class {
         "deferred" => {
             if let Some(_c) = calls {
+                let mut defer_calls = defer_calls.clone();
+                if mode.reentering() {
+                    // the operation the host ran inside its callback comes first (it completes first)
+                    let nested_ok = defer_calls.len() == 2
+                        && matches!(defer_calls[0], HostCall::Defer { instr: ci, lt: clt, rt: crt, .. }
+                            if ci == "Add" && *clt == type_to_u8(GarnishDataType::Symbol) && *crt == type_to_u8(GarnishDataType::Number));
+                    if !nested_ok {
+                        return Some((
+                            "C08.P1.call-count".into(),
+                            format!("{label}: {} defer_op call(s) recorded; expected two: the undefined Add (Symbol, Number) the host ran inside its callback, then the operation itself", defer_calls.len()),
+                        ));
+                    }
+                    defer_calls.remove(0);
+                }
                 if defer_calls.len() != 1 {
                     return Some(("C08.P1.call-count".into(), format!("{label}: defer_op called {} times, expected exactly once", defer_calls.len())));
                 }
@@ -394,7 +446,8 @@ fn judge(instr: Instruction, lt: Option<GarnishDataType>, rt: GarnishDataType, m
                     }
                 }
             }
-            match mode {
+            match mode.base() {
+                HostMode::DecliningAfterFailure | HostMode::AcceptingAfterFailure | HostMode::DecliningReentering | HostMode::AcceptingReentering => unreachable!(),
                 HostMode::Failing => {
                     if o.status == Status::Ok {
                         return Some(("C08.P6.failing-host-ignored".into(), format!("{label}: the callback returned Err but the step returned Ok")));
@@ -476,6 +529,10 @@ fn matrix<D: SimData>(mode: HostMode, instr: Instruction, only: Option<(usize, u
                 }
             } else {
                 let mut d = D::create(Host::new(script_for(mode)), &Knobs::default()).expect("world");
+                if mode.after_failure() && !failed_offer_prelude(&mut d) {
+                    out.violate("C08.P6.failing-host-ignored", format!("{label}: the host answered an offer made through defer_op with Err and the store returned Ok"));
+                    return;
+                }
                 let o = run_entry(&mut d, instr, *l, r, mode == HostMode::DecliningCompacting);
                 let log = d.host().log.clone();
                 (o, Some(log))
@@ -529,12 +586,19 @@ fn matrix<D: SimData>(mode: HostMode, instr: Instruction, only: Option<(usize, u
         HostMode::AcceptingNested => "matrix-host-accepting-after-a-nested-run",
         HostMode::DecliningCompacting => "matrix-host-compacting-then-declining",
         HostMode::Failing => "matrix-host-failing",
+        HostMode::DecliningAfterFailure => "matrix-host-declining-after-an-earlier-failed-callback",
+        HostMode::AcceptingAfterFailure => "matrix-host-accepting-after-an-earlier-failed-callback",
+        HostMode::DecliningReentering => "matrix-host-reentering-the-runtime-then-declining",
+        HostMode::AcceptingReentering => "matrix-host-reentering-the-runtime-then-accepting",
     });
 }
 
 fn program<D: SimData>(mode: HostMode, src: &str, input: &Val, script: &HostScript, out: &mut Outcome, th: &mut Fnv) {
     let mut script = script.clone();
     script.defer_default = script_for(mode).defer_default;
+    if mode.after_failure() {
+        script.nth_override.insert(0, Answer::Fail);
+    }
     script.leaves_cursor_after_apply = mode == HostMode::AcceptingNested;
     let mut d = D::create(Host::new(script), &Knobs::default()).expect("world");
     d.host_mut().recording = false;
@@ -555,6 +619,13 @@ fn program<D: SimData>(mode: HostMode, src: &str, input: &Val, script: &HostScri
     }
     // BasicGarnishData: what a host does after a build (its callback may compact the store)
     d.retain_now();
+    if mode.after_failure() {
+        if !failed_offer_prelude(&mut d) {
+            out.violate("C08.P6.failing-host-ignored", "the host answered an offer made through defer_op with Err and the store returned Ok".to_string());
+            return;
+        }
+        out.probe("program-run-after-an-earlier-failed-callback");
+    }
     if start(&mut d, built.entry_jump, input).is_err() {
         out.abstain = Some("start-failed".into());
         return;
@@ -682,7 +753,7 @@ impl Campaign for C08 {
 
     fn generate(&self, rng: &mut Rng, _tier: Tier, _index: u64) -> Sc08 {
         let basic = rng.chance(1, 2);
-        let mode = *rng.pick(&[HostMode::Declining, HostMode::Declining, HostMode::Accepting, HostMode::Failing, HostMode::AcceptingNested, if basic { HostMode::DecliningCompacting } else { HostMode::Declining }]);
+        let mode = *rng.pick(&[HostMode::Declining, HostMode::Declining, HostMode::Accepting, HostMode::Failing, HostMode::AcceptingNested, if basic { HostMode::DecliningCompacting } else { HostMode::Declining }, HostMode::DecliningAfterFailure, HostMode::AcceptingAfterFailure]);
         let budget = rng.range(2, 24);
         let mut cfg = GenCfg::full(budget);
         cfg.ident_leaf_pct = 50;
@@ -779,7 +850,7 @@ impl Campaign for C08 {
         // workload A: the complete matrix, in every run of the check
         let mut v = vec![];
         for basic in [false, true] {
-            for mode in [HostMode::Absent, HostMode::Declining, HostMode::Accepting, HostMode::Failing, HostMode::AcceptingNested, HostMode::DecliningCompacting] {
+            for mode in [HostMode::Absent, HostMode::Declining, HostMode::Accepting, HostMode::Failing, HostMode::AcceptingNested, HostMode::DecliningCompacting, HostMode::DecliningAfterFailure, HostMode::AcceptingAfterFailure, HostMode::DecliningReentering, HostMode::AcceptingReentering] {
                 if mode == HostMode::DecliningCompacting && !basic {
                     continue;
                 }
